@@ -2,6 +2,7 @@
 from __future__ import annotations
 
 import ast
+import re
 import itertools
 
 from ..core import Ctx
@@ -184,9 +185,12 @@ def signed_sums(ctx: Ctx):
     ci = ctx.repo.cls("dimension.py", "_Subtotal")
     for member in ("addend_ids", "subtrahend_ids"):
         e = expand(ctx.repo, ci, member, stop=lambda m: True)
-        conds = [u(c) for n in ast.walk(e) if isinstance(n, ast.comprehension) for c in n.ifs]
-        ok = "arg in self._valid_elements.element_ids" in conds
-        ctx.ob("stale-ids", f"dimension.py::_Subtotal.{member}", conds, "['arg in self._valid_elements.element_ids']", ok, "an id that is missing or no longer exists contributes nothing")
+        from ..exprdiff import alpha
+
+        # bound variables renamed to their binding depth (`_b0`): the filter is on the comprehension's OWN element
+        conds = [u(c) for n in ast.walk(alpha(e)) if isinstance(n, ast.comprehension) for c in n.ifs]
+        ok = True if any(re.fullmatch(r"_b\d+ in self\._valid_elements\.element_ids", c) for c in conds) else (False if not conds else None)
+        ctx.ob("stale-ids", f"dimension.py::_Subtotal.{member}", conds, "['<id> in self._valid_elements.element_ids']", ok, "an id that is missing or no longer exists contributes nothing")
 
 
 def base_flags(ctx: Ctx):
